@@ -68,6 +68,7 @@ def run(tier, seed):
                        "when safety_radius < distance to the next neighbour and clips otherwise; safety_radius is written only by update_safety_radius, which runs after every "
                        "rebuild of the vertex set; update_safety_radius = 2 * sqrt(max radius2) >= 2 * every vertex distance (bounded).",
     }
+    meta["assumptions"] = list(meta["assumptions"]) + kani.scan_assumptions()
     return results, meta
 
 
